@@ -482,9 +482,10 @@ def run(repo: Repo, rep):
     r2_r3_edges(repo, rep)
     r4_orientation(repo, rep)
     r5_single_point(repo, rep)
-    from .c05 import r1_truth_tables, r7_own_columns  # normals are selected by boundary membership; its Boolean structure must be the set algebra; own coordinates by name
+    from .c05 import r1_truth_tables, r7_own_columns, r8_side_tolerance  # normals are selected by boundary membership; its Boolean structure must be the set algebra; own coordinates by name; sides found with float32-sized slack
     r1_truth_tables(repo, rep)
     r7_own_columns(repo, rep)
+    r8_side_tolerance(repo, rep)
 
 
 _U = "src/torchphysics/problem/domains/domainoperations/union.py"
@@ -494,8 +495,9 @@ _TR = "src/torchphysics/problem/domains/domain2D/triangle.py"
 _CI = "src/torchphysics/problem/domains/domain2D/circle.py"
 _TM = "src/torchphysics/problem/domains/domain3D/trimesh_polyhedron.py"
 MUTANTS = [
-    dict(id="C06-M20", file=_TR, old="torch.isclose(bary_coord, torch.tensor(i))", new="torch.isclose(bary_coord - i, torch.zeros_like(bary_coord))", rule="R-C06-6", what="shifted difference compared with zero"),
-    dict(id="C06-M21", file=_PA, old="torch.isclose(bary_y, torch.tensor(i))", new="torch.isclose(bary_y, torch.tensor(i), rtol=0.0)", rule="R-C06-6", what="other tolerance than the membership test"),
+    dict(id="C06-M40", file=_TR, old="torch.isclose(bary_coord, torch.tensor(i), atol=1e-5)", new="torch.isclose(bary_coord, torch.tensor(i))", rule="R-C05-8", what="side lookup of the normal with the default atol"),
+    dict(id="C06-M20", file=_TR, old="torch.isclose(bary_coord, torch.tensor(i), atol=1e-5)", new="torch.isclose(bary_coord - i, torch.zeros_like(bary_coord))", rule="R-C06-6", what="shifted difference compared with zero"),
+    dict(id="C06-M21", file=_PA, old="torch.isclose(bary_y, torch.tensor(i), atol=1e-5)", new="torch.isclose(bary_y, torch.tensor(i), atol=1e-5, rtol=1.0)", rule="R-C06-6", what="other tolerance than the membership test"),
     dict(id="C06-M1", file=_CU, old="        normals = torch.where(on_a, a_normals, -b_normals)", new="        normals = torch.where(on_a, a_normals, b_normals)", rule="R-C06-1", what="cut normals not flipped"),
     dict(id="C06-M2", file=_U, old="        normals = torch.where(on_a, a_normals, b_normals)\n        return normals", new="        normals = torch.where(on_a, a_normals, -b_normals)\n        return normals", rule="R-C06-1", what="union normals flipped"),
     dict(id="C06-M3", file=_PA, old="        return torch.divide(normals, torch.linalg.norm(normals, dim=1).reshape(-1, 1))", new="        return normals", rule="R-C06-2", what="final normalisation removed"),
